@@ -349,6 +349,154 @@ func runStressRound(r stressRound) stressResult {
 	return res
 }
 
+// runDuet: two goroutines only, each repeating one kind of call. With few goroutines the race detector's
+// per-address history (4 accesses) still holds the conflicting access when the racy one happens; in the
+// full mix it is usually evicted by the many properly locked readers.
+func runDuet(seed int64, a, b string, keep bool, ms int) []string {
+	dir := MkScratch("vf-duet-")
+	defer os.RemoveAll(dir)
+	opts := klevdb.Options{KeyIndex: true, TimeIndex: true, Rollover: 120}
+	opts.Version.KeepRewriteVersion = keep
+	l, err := klevdb.Open(dir, opts)
+	if err != nil {
+		return []string{"open: " + err.Error()}
+	}
+	defer l.Close()
+	var pc atomic.Int64
+	verifhook.SetPause(func(p string) {
+		if n := pc.Add(1); strings.HasPrefix(p, "delete.") || strings.HasPrefix(p, "publish.rollover.") || strings.HasPrefix(p, "reader.") {
+			time.Sleep(time.Duration(50+n%250) * time.Microsecond)
+		}
+	})
+	defer verifhook.SetPause(nil)
+	var fails []string
+	var mu sync.Mutex
+	fail := func(f string, args ...any) {
+		mu.Lock()
+		if len(fails) < 10 {
+			fails = append(fails, fmt.Sprintf(f, args...))
+		}
+		mu.Unlock()
+	}
+	stop := make(chan struct{})
+	run := func(kind string, id int64) {
+		rnd := rand.New(rand.NewSource(seed*10 + id))
+		for i := 0; ; i++ {
+			select {
+			case <-stop:
+				return
+			default:
+			}
+			okErr := func(err error) bool {
+				return err == nil || errors.Is(err, klevdb.ErrNotFound) || errors.Is(err, klevdb.ErrInvalidOffset)
+			}
+			switch kind {
+			case "publish":
+				n := 1 + rnd.Intn(3)
+				msgs := make([]klevdb.Message, n)
+				for j := range msgs {
+					msgs[j] = klevdb.Message{Time: time.UnixMicro(int64(1000 + i)), Key: winKeys[rnd.Intn(len(winKeys))], Value: []byte(fmt.Sprintf("d%d-%d", i, j))}
+				}
+				if _, err := l.Publish(msgs); err != nil {
+					fail("Publish: %v", err)
+				}
+			case "delete-head", "delete-any":
+				n, _ := l.NextOffset()
+				if n < 1 {
+					continue
+				}
+				o := n - 1
+				if kind == "delete-any" {
+					o = int64(rnd.Intn(int(n)))
+				}
+				if _, _, err := l.Delete(map[int64]struct{}{o: {}}); !okErr(err) {
+					fail("Delete(%d): %v", o, err)
+				}
+			case "consume":
+				n, _ := l.NextOffset()
+				if _, _, err := l.Consume(int64(rnd.Intn(int(n)+1)), 4); err != nil {
+					fail("Consume: %v", err)
+				}
+			case "lookups":
+				if _, err := l.GetByKey(winKeys[rnd.Intn(len(winKeys))]); !okErr(err) {
+					fail("GetByKey: %v", err)
+				}
+				if _, err := l.GetByTime(time.UnixMicro(int64(1000 + rnd.Intn(i+1)))); !okErr(err) {
+					fail("GetByTime: %v", err)
+				}
+				if _, err := l.Get(klevdb.OffsetNewest); !okErr(err) {
+					fail("Get(newest): %v", err)
+				}
+			case "gc":
+				if err := l.GC(0); err != nil {
+					fail("GC: %v", err)
+				}
+				time.Sleep(100 * time.Microsecond)
+			case "admin":
+				if _, err := l.Stat(); err != nil {
+					fail("Stat: %v", err)
+				}
+				if _, err := l.Sync(); err != nil {
+					fail("Sync: %v", err)
+				}
+				if _, err := l.NextOffset(); err != nil {
+					fail("NextOffset: %v", err)
+				}
+			}
+		}
+	}
+	// something to work on
+	for i := 0; i < 20; i++ {
+		_, _ = l.Publish([]klevdb.Message{{Time: time.UnixMicro(int64(900 + i)), Key: winKeys[i%len(winKeys)], Value: []byte("seed")}})
+	}
+	var wg sync.WaitGroup
+	for i, k := range []string{a, b} {
+		wg.Add(1)
+		go func(k string, id int64) {
+			defer wg.Done()
+			run(k, id)
+		}(k, int64(i))
+	}
+	time.Sleep(time.Duration(ms) * time.Millisecond)
+	close(stop)
+	wg.Wait()
+	if _, err := scanLog(l); err != nil {
+		fail("final scan: %v", err)
+	}
+	return fails
+}
+
+var duetPairs = [][2]string{{"delete-head", "publish"}, {"delete-any", "publish"}, {"publish", "gc"}, {"consume", "delete-any"}, {"consume", "gc"},
+	{"lookups", "publish"}, {"lookups", "delete-any"}, {"admin", "publish"}, {"admin", "delete-head"}, {"gc", "delete-any"}, {"publish", "publish"}, {"delete-any", "delete-head"}}
+
+func TestC08Duets(t *testing.T) {
+	st := NewStats("C08")
+	defer st.Write()
+	seed := int64(envInt("VF_SEED", 1))
+	shard, shards := envInt("VF_SHARD", 0), envInt("VF_SHARDS", 1)
+	ms := 250
+	if thoroughTier() {
+		ms = 1500
+	}
+	for i, pr := range duetPairs {
+		if i%shards != shard {
+			continue
+		}
+		for _, keep := range []bool{true, false} {
+			fails := runDuet(seed+int64(i), pr[0], pr[1], keep, ms)
+			st.Eval(1)
+			st.NonTrivialStr(fmt.Sprintf("duet|%s|%s|%v", pr[0], pr[1], keep))
+			st.Inc("duets")
+			if len(fails) > 0 {
+				v := &Violation{Oracle: "history", Msg: fmt.Sprintf("duet %s || %s (keep=%v): %v", pr[0], pr[1], keep, fails)}
+				path := WriteReplay("C08", "stress", v, map[string]any{"duet": pr, "keep": keep, "failures": fails})
+				fmt.Printf("%v\nVIOLATION property=C08 replay=%s\n", v, path)
+				t.FailNow()
+			}
+		}
+	}
+}
+
 func TestC08Stress(t *testing.T) {
 	st := NewStats("C08")
 	defer st.Write()
